@@ -618,6 +618,53 @@ func (c *c18ctx) pointerAround(xs, inner string, envIdx []int) {
 	}
 }
 
+// the same with a TYPE-DIRECTED use of the element before and after the inner loop (`# == first element`): also the static
+// type the checker gives `#` after an inner builtin is the one of the enclosing collection (a specialised comparison or a
+// rewrite chosen from a wrong static type changes the second answer)
+func (c *c18ctx) pointerAroundTyped(xs, inner string, envIdx []int) {
+	first := "(" + xs + ")[0]"
+	src := "map(" + xs + ", {[# == " + first + ", " + inner + ", # == " + first + "]})"
+	for _, m := range c18Modes {
+		for _, ei := range envIdx {
+			x, xok := c.run(xs, m, ei)
+			in, iok := c.run(inner, m, ei)
+			if !xok || !iok || x.err != nil || in.err != nil {
+				continue
+			}
+			elems, isArr := c18items(x.out)
+			if !isArr || len(elems) == 0 {
+				continue
+			}
+			before, bok := c.run("map("+xs+", {# == "+first+"})", m, ei)
+			if !bok || before.err != nil {
+				continue
+			}
+			bs, _ := c18items(before.out)
+			r, rok := c.run(src, m, ei)
+			c.rep.Evaluations++
+			c.rep.hist("typed use of the element before/after an inner loop")
+			c.dist[fmt.Sprintf("aroundT|%s|%s|%d", src, m.Name, ei)] = true
+			good := rok && r.err == nil
+			if good {
+				rows, ok := c18items(r.out)
+				good = ok && len(rows) == len(elems) && len(bs) == len(elems)
+				for i := 0; good && i < len(rows); i++ {
+					row, ok := c18items(rows[i])
+					good = ok && len(row) == 3 && c18sameValue(row[0], bs[i]) && c18sameValue(row[1], in.out) && c18sameValue(row[2], bs[i])
+				}
+			}
+			if !good {
+				got := "rejected at compile time"
+				if rok {
+					got = c18show(r, true)
+				}
+				c.failPair("C18-innermost", "a comparison of # after an inner loop does not answer like the same comparison before it", "pointer-around-typed", src, xs, m, ei,
+					fmt.Sprintf("rows [b, %s, b] with b = (x == first) for x in %s", cqValue(in.out), cqValue(x.out)), got)
+			}
+		}
+	}
+}
+
 // ---------------------------------------------------------------------------------------------
 // membership in an integer range
 
@@ -1018,6 +1065,10 @@ func runC18() {
 		}
 		c.nested(body, wraps, c.pickEnvs(k))
 		c.pointerAround(wrapPool[rng.Intn(len(wrapPool))], innerPool[rng.Intn(len(innerPool))], c.pickEnvs(k))
+		emitWas := c.emit
+		c.emit = false
+		c.pointerAroundTyped([]string{"AS", "AF", `["a", "b"]`, "AI", "[1.5, 2]", "AA"}[i%6], innerPool[(i/6)%len(innerPool)], c.pickEnvs(2))
+		c.emit = emitWas
 		if i == 0 {
 			samples = append(samples, "map("+wraps[0]+", {... "+body+" ...}) nested "+fmt.Sprint(depth)+" deep vs "+body)
 		}
